@@ -380,7 +380,7 @@ fn eval_one(rig: &Rig, case: &Case, req: &GReq, rules: &(Option<GDoc>, Option<GD
 }
 
 #[allow(clippy::too_many_arguments)]
-fn judge(_rig: &Rig, case: &Case, req: &GReq, target: &str, wire_target: &str, dest_rules: Option<&GDoc>, claims: &Option<crate::gen::GClaims>, obs: &Observed, index: usize, stats: &mut Stats) -> Outcome {
+fn judge(_rig: &Rig, case: &Case, req: &GReq, target: &str, wire_target: &str, dest_rules: Option<&GDoc>, claims: &Option<crate::gen::GClaims>, obs: &Observed, _index: usize, stats: &mut Stats) -> Outcome {
     let target = target.to_string();
     let total_up: u64 = obs.delta.values().sum();
     let (path, _) = crate::refmodel::rbac::split_target(&target);
@@ -447,7 +447,7 @@ fn judge(_rig: &Rig, case: &Case, req: &GReq, target: &str, wire_target: &str, d
             }
         }
         if (refusal && !provision) || depends {
-            stats.nontrivial_hash(h64(&(case, &target, index)));
+            stats.nontrivial_hash(h64(case));
         }
     }
     stats.sample(|| {
